@@ -13,6 +13,7 @@ source over values that are concrete Python objects or z3 terms.
 Integers: concrete Python ints or 64-bit bit-vectors (unsigned ops; `as` casts between integer types
 are identities at 64 bits: stated in evidence). Strings: Python str or z3 String.
 """
+import re
 import z3
 
 from .rsparse import Unsupported
@@ -1490,7 +1491,7 @@ class Interp:
         if name == "into" and self.resolve_into and isinstance(recv, Struct):
             # value.into(): the loaded `impl From<S> for T` with S = the value's type (the target named by the let / turbofish when several exist)
             cands = [(t, fn) for (t, m), lst in self.prog.trait_methods.items() if m == "from" for tr, fn in lst
-                     if tr.replace(" ", "") in ("From<%s>" % recv.ty, "From<&%s>" % recv.ty)]
+                     if re.sub(r"<'\w+>|'\w+", "", tr.replace(" ", "")) in ("From<%s>" % recv.ty, "From<&%s>" % recv.ty)]
             if len(cands) > 1 and self.call_type:
                 want = str(self.call_type).split("<")[0].split("::")[-1].strip()
                 cands = [c for c in cands if c[0] == want] or cands
